@@ -129,6 +129,8 @@ def generate(rng, seed, run, tier, focus='C11', xmode=False):
                 n, m = len(labels[li][0]), len(labels[li][1])
             else:
                 n, m = rng.randint(1, 7), rng.randint(1, 7)
+                if focus == 'C12' and rng.random() < 0.12:
+                    n, m = rng.randint(8, 14), rng.randint(10, 14)   # two-digit indexes, wider tables
                 li = new_labels(n, m)
             rows = gen_table(rng, n, m)
             isbig = False
@@ -141,6 +143,8 @@ def generate(rng, seed, run, tier, focus='C11', xmode=False):
 
     def target(form, natural):
         base = rng.choice(bases)
+        if rng.random() < 0.2:
+            base = 'v1.2.d/' + base
         if rng.random() < 0.8:
             suf = natural
             if rng.random() < 0.3:
@@ -268,7 +272,7 @@ def generate(rng, seed, run, tier, focus='C11', xmode=False):
                      'csv': rng.choice(['plain', 'int', 'quote_all', 'tab', 'header'])}[frmat]
             # line terminators of the platform the independent writer ran on (files only)
             style += rng.choice(['', '', '+crlf', '+crlf', '+cr']) if frmat != 'csv' else rng.choice(['', '', '+lf'])
-            enc = rng.choice(['utf-8', 'utf-8', 'utf-16', 'latin-1'])
+            enc = rng.choice(['utf-8', 'utf-8', 'utf-16', 'latin-1', 'utf-8-sig', 'utf-16-le'])
             events.append(['ref_w', t, frmat, li, gen_table(rng, n, m), style, enc])
             files[t] = {'form': frmat, 'li': li, 'n': n, 'm': m}
             continue
@@ -315,7 +319,7 @@ def generate(rng, seed, run, tier, focus='C11', xmode=False):
                     kwargs['object_header'] = rng.choice(['name', 'o,bj', ''])
             if frmat == 'table' and rng.random() < 0.4:
                 kwargs['indent'] = rng.choice([0, 1, 4, 9])
-            enc = rng.choice(['utf-8', 'utf-8', 'utf-16', 'latin-1'])
+            enc = rng.choice(['utf-8', 'utf-8', 'utf-16', 'latin-1', 'utf-8-sig', 'utf-16-le', 'utf-16-be', 'cp1252'])
             events.append([kind, nd, s, frmat, t, enc, kwargs])
             files[t] = dict(info, form=frmat)
         elif kind == 'str_rt':
@@ -328,7 +332,8 @@ def generate(rng, seed, run, tier, focus='C11', xmode=False):
                     kwargs['dialect'] = rng.choice(['excel-tab', '@excel_tab', '@excel_tab()', '@excel', '@unix()'])
             if frmat == 'table' and rng.random() < 0.5:
                 kwargs['indent'] = rng.choice([0, 2, 7])
-            events.append([kind, nd, s, frmat, kwargs, rng.choice(['fromstring', 'make_context'])])
+            events.append([kind, nd, s, frmat, kwargs, rng.choice(['fromstring', 'make_context']),
+                           rng.choice(['', '', 'upper', 'title'])])
         elif kind == 'dat':
             events.append([kind, nd, s, target('dat', '.dat'), int(rng.random() < 0.5)])
         else:  # pragma: no cover
@@ -397,7 +402,9 @@ class Storage:
         return self.node(n).handle(cmd)
 
     def path(self, target):
-        return os.path.join(self.dir, target)
+        p = os.path.join(self.dir, target)
+        os.makedirs(os.path.dirname(p), exist_ok=True)
+        return p
 
     def triple_cmd(self, info):
         objs, props = self.labels[info['li']]
@@ -795,7 +802,7 @@ class Storage:
         p = self.path(target)
         before = os.path.getsize(p) if os.path.exists(p) else None
         r = self.send(node, {'op': 'tofile', 'slot': slot, 'path': p, 'frmat': frmat, 'encoding': enc,
-                             'kwargs': kwargs})
+                             'kwargs': kwargs, 'pathkind': 'pathlike' if len(target) % 2 else 'str'})
         rec.check('C12.tofile_succeeds', r['ok'], lambda: f'tofile({frmat}, {enc}, {kwargs}) raised {r} labels={names!r}')
         if not r['ok']:
             self.files.pop(target, None)
@@ -881,7 +888,8 @@ class Storage:
         if via == 'definition' and frmat == 'python-literal':
             via = 'fromfile'
         self.writer_reader_fault(node, f)
-        cmd = {'op': 'fromfile', 'dst': dst, 'path': self.path(target), 'via': via, 'encoding': f['enc'], 'kwargs': kwargs}
+        cmd = {'op': 'fromfile', 'dst': dst, 'path': self.path(target), 'via': via, 'encoding': f['enc'], 'kwargs': kwargs,
+               'pathkind': 'pathlike' if (len(target) + len(dst)) % 2 else 'str'}
         if via in ('fromfile', 'definition'):
             cmd['frmat'] = frmat
         r = self.send(node, cmd)
@@ -895,7 +903,7 @@ class Storage:
         self.check_triple(oracle, node, dst, new, f'{via}({target}, {frmat}) written by {f.get("writer")}')
         rec.log('ok')
 
-    def ev_str_rt(self, node, slot, frmat, kwargs, via):
+    def ev_str_rt(self, node, slot, frmat, kwargs, via, namecase=''):
         rec = self.rec
         info = self.slots.get((node, slot))
         if info is None or info['kind'] not in ('ctx', 'def'):
@@ -904,17 +912,18 @@ class Storage:
         names = list(objs) + list(props)
         if not representable(frmat, names):
             return rec.log('unrepresentable')
-        s = self.send(node, {'op': 'tostring', 'slot': slot, 'frmat': frmat, 'kwargs': kwargs})
-        rec.check('C12.tostring_succeeds', s['ok'], lambda: f'tostring({frmat}, {kwargs}) raised {s}')
+        fname = {'upper': frmat.upper(), 'title': frmat.title()}.get(namecase, frmat)   # names are case-insensitive
+        s = self.send(node, {'op': 'tostring', 'slot': slot, 'frmat': fname, 'kwargs': kwargs})
+        rec.check('C12.tostring_succeeds', s['ok'], lambda: f'tostring({fname}, {kwargs}) raised {s}')
         if not s['ok']:
             return rec.log('failed')
-        self.ref_read_check(frmat, s['text'], info, kwargs, f'tostring({frmat}, {kwargs})')
+        self.ref_read_check(frmat, s['text'], info, kwargs, f'tostring({fname}, {kwargs})')
         rkw = {}
         if frmat == 'csv' and kwargs.get('dialect'):
             rkw['dialect'] = kwargs['dialect']
         if rkw:
             via = 'fromstring'
-        r = self.send(node, {'op': 'fromstring', 'dst': '_rt', 'text': s['text'], 'frmat': frmat, 'via': via, 'kwargs': rkw})
+        r = self.send(node, {'op': 'fromstring', 'dst': '_rt', 'text': s['text'], 'frmat': fname, 'via': via, 'kwargs': rkw})
         rec.check('C12.lib_roundtrip', r['ok'], lambda: f'fromstring(tostring({frmat})) raised {r}; text={s["text"][:300]!r}')
         if r['ok']:
             new = {'li': info['li'], 'fca': info['fca'], 'kind': 'ctx', 'has_lat': False}
